@@ -45,6 +45,24 @@ def run(prop, tier):
                 chains.append([{"own": sorted(r.sample([1, 2, 3, 4], r.randint(0, 4))), "kind": r.choice(["mem", "disk"])} for _ in range(n)])
                 for lv in chains[-1]:
                     lv["nul"] = [x for x in lv["own"] if r.random() < 0.3]
+        # trees: several partitions merge onto the same parent object (siblings), read in different orders
+        trees = []
+        for _ in range(12 if quick else 200):
+            kinds = [r.choice(["mem", "disk"]) for _ in range(4)]
+            lv = [{"own": sorted(r.sample([1, 2, 3], r.randint(0, 3))), "kind": kinds[i]} for i in range(4)]
+            for x in lv:
+                x["nul"] = [k for k in x["own"] if r.random() < 0.2]
+            shape = r.choice([[0, 1, 1], [0, 1, 1, 3], [0, 1, 1, 1], [0, 1, 2, 1]])
+            tree = [dict(lv[i], par=shape[i]) for i in range(len(shape))]
+            n = len(tree)
+            order = list(range(2, n + 1))
+            r.shuffle(order)
+            plan = [["call", x] for x in order] + [["call", 1]] + [["call", x] for x in order] + [["reopen"]] + \
+                   [["call", x] for x in reversed(order)] + [["call", 1]]
+            plan2 = [["call", 1], ["reopen"]] + [["call", x] for x in order] + [["call", 1]] + [["call", x] for x in order]
+            for c in (CFGS if not quick else [CFGS[_ % len(CFGS)]]):
+                jobs.append({"chain": tree, "cfg": c, "steps": plan})
+                jobs.append({"chain": tree, "cfg": c, "steps": plan2})
         for i, ch in enumerate(chains):
             plans = step_plans(len(ch))
             for pi, plan in enumerate(plans):
@@ -63,7 +81,8 @@ def run(prop, tier):
         rep.cov["chains"] = len(chains)
         rep.cov["rule"] = ("merge chains of length 1..3 over 3 keys (all own-key subsets per level; thorough: all staging-kind "
                            "combinations and 4-level chains) x 4 build/read plans (parents computed in the same run, found in "
-                           "cache, read back from disk, mixed) x {filesystem, filesystem+cache, memory}; every returned "
+                           "cache, read back from disk, mixed) x {filesystem, filesystem+cache, memory}; trees in which 2-3 partitions merge onto "
+                           "the same parent object, read in different orders; every returned "
                            "partition object is probed key by key")
         rep.sample({"chain": traces[0]["chain"], "steps": traces[0]["steps"], "cfg": traces[0]["cfg"], "events": traces[0]["ev"]})
         for rj in rej:
